@@ -149,13 +149,26 @@ pub fn main(args: &Args) -> i32 {
         let count = if args.thorough { 1500 } else { 60 };
         for _ in 0..count {
             let k = rng.gen_range(1..4usize);
-            let sols: Vec<Solution> = (0..k)
+            let mut sols: Vec<Solution> = (0..k)
                 .map(|_| Solution {
                     predicate_to_solve: PredicateAddress { contract: ContentAddress(rng.gen()), predicate: ContentAddress(rng.gen()) },
                     predicate_data: (0..rng.gen_range(0..3)).map(|_| (0..rng.gen_range(0..3)).map(|_| if rng.gen_bool(0.5) { rng.gen_range(0..3) } else { rng.gen() }).collect()).collect(),
                     state_mutations: vec![],
                 })
                 .collect();
+            // several solutions of one set may solve the same predicate (with different or with the
+            // same data): every one of them "exists"
+            if k >= 2 && rng.gen_bool(0.5) {
+                let shared = sols[0].predicate_to_solve.clone();
+                for s in sols.iter_mut().skip(1) {
+                    if rng.gen_bool(0.7) {
+                        s.predicate_to_solve = shared.clone();
+                    }
+                }
+                if k >= 3 && rng.gen_bool(0.3) {
+                    sols[2] = sols[0].clone();
+                }
+            }
             let sols_j = J::A(sols.iter().map(|s| J::O(vec![
                 ("slots", J::A(s.predicate_data.iter().map(|sl| J::O(vec![("len", wb(sl.len() as i64)), ("words", words_j(sl))])).collect())),
                 ("contract", jb(&s.predicate_to_solve.contract.0)),
